@@ -134,7 +134,8 @@ class Prog:
         return {"numGlyphs": n + 2, "numReal": n, "lb": n, "phantom": n + 1, "anyClass": any_id,
                 "classRefs": self.class_refs, "autoPseudo": self.auto_pseudo, "ignoreBad": self.ignore_bad,
                 "gattr": self.gattr, "features": self.features, "languages": self.languages, "nameStart": self.name_start,
-                "classes": classes, "classDefs": defs, "classNames": names + ["ANY", "#"], "passes": passes}
+                "classes": classes, "classDefs": defs, "classNames": names + ["ANY", "#"], "passes": passes,
+                "gattrValues": [[g, v] for g, v in sorted(getattr(self, "gattr_values", {}).items())]}
 
 
 def rule_text(r):
